@@ -6,11 +6,18 @@ insertion orders and node orders inside hyperedges, explicit detours (extra
 hyperedges and nodes inserted and removed, keep_edges shrinks, clear(), junk
 metadata and weights that are repaired later, weights reached as a+b by
 re-insertion or through set_weight, metadata reached through set_attr /
-remove_attr).  Both objects are first checked (public API) to hold exactly the
-target content -- the premise of the claim; then the two hashes must be equal.
+remove_attr, bulk forms remove_nodes / remove_edges / add_nodes for every other call,
+continuing on h.copy(), float weights k/4 reached through exact partial sums, side B
+handing every metadata dict to the library with reversed key order, the hash taken
+right before calls that change the object).  Both objects are first checked
+(public API) to hold exactly the target content -- the premise of the claim; then
+the two hashes must be equal.
 
 Difference direction: the second object is built (again with detours) from the
 content after exactly one edit; the two hashes must differ.
+
+Cross-process: the same case is rebuilt in a child interpreter started with another
+PYTHONHASHSEED; the digests must be equal (a fingerprint, not a per-process value).
 
 Purity: the complete public observation (the observe functions of C01..C04,
 every metadata dict deep-copied) is identical before and after hashing, at every
@@ -28,8 +35,20 @@ ASSUMPTIONS = [
     "the two constructions are checked through the public API (nodes with metadata, hyperedges "
     "with weight and metadata, weightedness, hypergraph metadata) to hold exactly the target "
     "content before the hashes are compared; if not, the case is a harness error, never a verdict",
-    "weights are ints on both sides; metadata values are compared with their JSON type "
-    "(1, 1.0 and True are different values), labels of one universe are mutually comparable",
+    "weights are ints on both sides, or (content field wmode = dyadic) floats k/4 on both sides, "
+    "reached through exact partial sums; a weight 2 is never compared with 2.0 (the repair phase "
+    "treats them as different and the premise check compares numeric types); metadata values are "
+    "compared with their JSON type (1, 1.0 and True are different values), labels of one universe "
+    "are mutually comparable",
+    "the insertion order of the keys of a metadata dict (top level, nested, inside lists) is not "
+    "content: side B may hand every dict to the library with reversed key order",
+    "the hash is also taken inside the histories (right before calls that change the object, and "
+    "on copies made by copy() where the class has it); only the final hashes are compared",
+    "cross_process_stable: at most two child interpreters per shard (PYTHONHASHSEED 1 and 12345, "
+    "kept alive for the shard) import the same library tree (HGXVERIF_REPO is inherited) and "
+    "replay the same cases; a failure of a child is a harness error",
+    "a node labelled 2 and a node labelled '2' are different nodes (edit node_label_type: all "
+    "labels ints on one side, their str() on the other)",
     "calls whose effect on metadata is unspecified (metadata of a re-inserted hyperedge, add_node "
     "with metadata on an existing node, keep_edges merge into an existing hyperedge, emptied "
     "hyperedge, weights passed to add_edges of an unweighted object) are never issued",
@@ -83,11 +102,27 @@ def check_equal(case, ctx):
     B.history_labels(ba, ctx)
     B.history_labels(bb, ctx)
     ctx.label("weighted" if T["weighted"] else "unweighted")
+    if T["wmode"] == "dyadic" and T["edges"]:
+        ctx.label("float_weights")
+    if bb.rev and _has_nested_dict(T):
+        ctx.label("nested_dict_keys_reversed_on_B")
     ctx.label("labels:" + case["content"]["universe"]["kind"])
     if not T["edges"]:
         ctx.label("no_hyperedges")
     removal = "removal" in ba.flags or "removal" in bb.flags
     ctx.nontrivial(removal and (T["edges"] or T["nodes"]) and ba.trace != bb.trace)
+
+
+def _has_nested_dict(T):
+    """some metadata value holds a dict with two or more keys (directly or inside a list)"""
+    def deep(v, top):
+        if isinstance(v, dict):
+            return (not top and len(v) >= 2) or any(deep(x, False) for x in v.values())
+        if isinstance(v, list):
+            return any(deep(x, False) for x in v)
+        return False
+    return (any(deep(m, True) for m in T["nodes"].values())
+            or any(deep(v[1], True) for v in T["edges"].values()) or deep(T["hg_user"], True))
 
 
 def _content_json(T):
@@ -103,7 +138,8 @@ def _equal_strategy(type_name):
         mx = 8 if tier == "quick" else 14
         return st.fixed_dictionaries({
             "content": B.contents(type_name, max_edges=5 if tier == "quick" else 7),
-            "a": B.sides(mx), "b": B.sides(mx)})
+            "a": B.sides(mx, extra_kinds=["copy"] * 3),
+            "b": B.sides(mx, extra_kinds=["copy"] * 3, rev=True)})
     return strat
 
 
@@ -119,7 +155,11 @@ EDITS = ["add_node", "remove_node", "add_edge", "remove_edge", "change_weight", 
          # ... or only in an integer beyond 2**53 (distinct ints, equal as floats)
          "node_meta_big_int", "edge_meta_big_int", "hg_meta_big_int", "weight_big_int",
          # ... or only in one weight being 0 on one side and 1 (the default) on the other
-         "weight_zero_vs_one"]
+         "weight_zero_vs_one",
+         # ... or only in a fractional step of one float weight (0.5 / 0.75, 2.0 / 2.5)
+         "weight_float_step",
+         # ... or only in the TYPE of the node labels: ints on one side, their str() on the other
+         "node_label_type"]
 MARK = "CHANGED"
 
 
@@ -226,6 +266,16 @@ def apply_edit(T, U, e, kind):
             return None
         key = keys[e["pick"] % len(keys)]
         T1["edges"][key][0], T2["edges"][key][0] = 2 ** 53, 2 ** 53 + 1
+    elif kind == "weight_float_step":
+        if not keys or not T["weighted"]:
+            return None
+        key = keys[e["pick"] % len(keys)]
+        T1["edges"][key][0], T2["edges"][key][0] = [(0.5, 0.75), (2.0, 2.5), (2.5, 2.0)][e["pick2"] % 3]
+    elif kind == "node_label_type":
+        if not nodes or not all(type(u) is int for u in U):
+            return None
+        T2 = B.relabel(T, str)
+        T2["U"] = [str(u) for u in U]       # the universe the second history draws its noise from
     elif kind == "weight_zero_vs_one":
         if not keys or not T["weighted"]:
             return None
@@ -292,13 +342,14 @@ def check_edit(case, ctx):
         c1, c2 = B.target_as_content(k, T1), B.target_as_content(k, T2)
         if c1 == c2 and B._same_types(c1, c2):
             raise HarnessError("edit %r did not change the content" % (kind,))
+        U2 = T2.get("U", U)
         if (kind.startswith("flip_weighted") or kind.endswith("_list_order")
-                or kind.endswith("_big_int") or kind == "weight_zero_vs_one"):
+                or kind.endswith("_big_int") or kind in ("weight_zero_vs_one", "weight_float_step")):
             # the only edits that also adjust the first content
             try:
                 hx, bx = B.build(T1, U, case["a"], hash_fn=_hash())
                 if kind == "weight_zero_vs_one":
-                    h2, b2 = B.build(T2, U, case["b"], hash_fn=_hash())
+                    h2, b2 = B.build(T2, U2, case["b"], hash_fn=_hash())
             except ValueError:
                 if kind != "weight_zero_vs_one":
                     raise
@@ -310,7 +361,7 @@ def check_edit(case, ctx):
         else:
             bx, v1 = b1, v_base
         if kind != "weight_zero_vs_one":
-            h2, b2 = B.build(T2, U, case["b"], hash_fn=_hash())
+            h2, b2 = B.build(T2, U2, case["b"], hash_fn=_hash())
         ctx.trace = {"edit": kind, "content_1": _content_json(T1), "content_2": _content_json(T2),
                      "history_1": bx.trace, "history_2": b2.trace}
         v2 = _hash_checked(h2, "the edited object")
@@ -337,7 +388,7 @@ def _edit_strategy(tier):
         "meta": B.rich_metadata(), "value": S.json_values, "perm": B.sel})
     return st.fixed_dictionaries({
         "content": B.contents(None, max_edges=5), "edit": edit,
-        "a": B.sides(mx), "b": B.sides(mx)})
+        "a": B.sides(mx, extra_kinds=["copy"] * 3), "b": B.sides(mx, extra_kinds=["copy"] * 3, rev=True)})
 
 
 # --------------------------------------------------------------------------
@@ -389,6 +440,106 @@ def _pure_strategy(tier):
         "a": B.sides(mx, extra_kinds=["hash"] * 8, min_noise=3)})
 
 
+# --------------------------------------------------------------------------
+# the fingerprint does not depend on the interpreter's string-hash randomisation
+
+
+def _digests(case):
+    """hashes of the objects of a cross_process case (runs in the parent and in the child)"""
+    out = []
+    for item in case["items"]:
+        T = B.derive(item["content"])
+        h, _ = B.build(T, item["content"]["universe"]["labels"], item["side"], hash_fn=_hash())
+        out.append(_hash()(h))
+    return out
+
+
+_CHILD = ("import sys, json; sys.path.insert(0, %r); from hgxverif import engine; "
+          "engine.setup_paths(); from hgxverif.props import c07; c07._child_loop()")
+_CHILDREN = {}      # hash seed -> child interpreter (started on first use, one per seed)
+
+
+def _child_loop():
+    """child interpreter: one JSON case per input line, one answer line per case"""
+    import json
+    import sys
+    for line in sys.stdin:
+        try:
+            ans = {"digests": _digests(json.loads(line))}
+        except Exception as exc:       # reported to the parent, which raises HarnessError
+            ans = {"error": "%s: %s" % (type(exc).__name__, exc)}
+        sys.stdout.write("DIGESTS " + json.dumps(ans) + "\n")
+        sys.stdout.flush()
+
+
+def _child(hashseed):
+    import atexit
+    import os
+    import subprocess
+    import sys
+    from ..engine import VERIF_DIR
+    p = _CHILDREN.get(hashseed)
+    if p is None or p.poll() is not None:
+        env = dict(os.environ, PYTHONHASHSEED=str(hashseed))
+        p = subprocess.Popen([sys.executable, "-c", _CHILD % (VERIF_DIR,)], stdin=subprocess.PIPE,
+                             stdout=subprocess.PIPE, stderr=subprocess.DEVNULL, text=True,
+                             env=env, cwd=VERIF_DIR)
+        _CHILDREN[hashseed] = p
+        atexit.register(_stop_child, p)
+    return p
+
+
+def _stop_child(p):
+    try:
+        p.stdin.close()
+        p.wait(timeout=5)
+    except Exception:
+        p.kill()
+
+
+def check_cross_process(case, ctx):
+    import json
+    import os
+    here = _digests(case)
+    p = _child(case["hashseed"])
+    try:
+        p.stdin.write(json.dumps(case) + "\n")
+        p.stdin.flush()
+        line = p.stdout.readline()
+        while line and not line.startswith("DIGESTS "):
+            line = p.stdout.readline()
+    except OSError as exc:
+        raise HarnessError("child interpreter unreachable: %s" % (exc,))
+    if not line:
+        raise HarnessError("child interpreter ended (exit %r)" % (p.poll(),))
+    ans = json.loads(line[len("DIGESTS "):])
+    if "error" in ans:
+        raise HarnessError("child interpreter could not rebuild the case: %s" % (ans["error"],))
+    there = ans["digests"]
+    for item, a, b in zip(case["items"], here, there):
+        T = B.derive(item["content"])
+        require(a == b,
+                lambda: "hash_hypergraph of the same %s built by the same calls is %s in this "
+                        "interpreter and %s in one started with PYTHONHASHSEED=%d (expected equal). "
+                        "content %s" % (T["type"], a[:12], b[:12], case["hashseed"],
+                                        _short(_content_json(T), 700)),
+                key="hash-depends-on-hashseed")
+        ctx.label("type:" + T["type"])
+        ctx.label("labels:" + item["content"]["universe"]["kind"])
+    if os.environ.get("PYTHONHASHSEED") == str(case["hashseed"]):
+        ctx.label("same_hashseed_as_parent")
+    ctx.nontrivial(any(it["content"]["universe"]["kind"].startswith("strs") and it["content"]["edges"]
+                       for it in case["items"]))
+
+
+def _cross_strategy(tier):
+    return st.fixed_dictionaries({
+        "items": st.tuples(*[st.fixed_dictionaries({"content": B.contents(name, max_edges=5),
+                                                    "side": B.sides(4)})
+                             for name in B.TYPES]).map(list),
+        "hashseed": st.sampled_from([1, 12345])})
+
+
 CLAUSES = [
     Clause("equal_histories." + name, _equal_strategy(name), check_equal,
            quick=300, thorough=2000,
@@ -399,11 +550,14 @@ CLAUSES = [
 ] + [
     Clause("single_edit_differs", _edit_strategy, check_edit, quick=120, thorough=600,
            shards_quick=2,
-           rule="at least 10 of the 17 kinds of single edit apply to the drawn content (each "
+           rule="at least 10 of the 27 kinds of single edit apply to the drawn content (each "
                 "applicable kind is checked on every case)"),
     Clause("hash_does_not_mutate", _pure_strategy, check_pure, quick=120, thorough=600,
            shards_quick=2,
            rule="history with a removal that ends with hyperedges; the hash is taken (and the full "
                 "observation compared) after the constructor, inside and after the noise phase and "
                 "at the end"),
+    Clause("cross_process_stable", _cross_strategy, check_cross_process, quick=60, thorough=60,
+           rule="one object of each container type, rebuilt by the same calls in a child interpreter "
+                "with another PYTHONHASHSEED; at least one of them has str labels and hyperedges"),
 ]
